@@ -423,6 +423,7 @@ def run_impl(c):
     addr_unknown = []    # (node, computation): the directory had no address to answer / notify with
     addr_via_comp = []   # (node, agent): address learnt from a computation registration carrying an address
     cbmiss = []          # view changes at an agent that did not fire a registered callback
+    treg = {}            # callbacks registered according to the HISTORY: (node, 'A'|'C'|'R', item) -> [[cb, one_shot]]
     keys_of = lambda *vs: set().union(*[set(v) for v in vs])
 
     def act(a):
@@ -461,6 +462,13 @@ def run_impl(c):
                 g = directory._computations_data.get(comp_name(wire[1]))
                 if g is not None and g not in directory._agents_data:
                     addr_unknown.append([node_id(a[1]), "C%d" % wire[1]])
+            if wire[0] == "sub_agent" and wire[1] == -1 and wire[2]:
+                # the answer to '*' lists the agents of the directory's own Discovery object, which also holds
+                # the addresses given with computation registrations (not in Directory._agents_data)
+                for x in directory.discovery._agents_data:
+                    if x != ORCH and x not in directory._agents_data:
+                        for nm in directory._subscription_all_agents:
+                            addr_via_comp.append([node_id(nm), "A%d" % agent_id(x)])
             if wire[0] == "pub_comp" and raised in ("UnknownAgent", "KeyError"):
                 for nm in directory._subscription_computations.get(comp_name(wire[1]), ()):
                     addr_unknown.append([node_id(nm), "C%d" % wire[1]])
@@ -518,9 +526,33 @@ def run_impl(c):
                     item, ag = [int(x) for x in k[1:].split(":")]
                     want = reg0["R"].get(item, [])
                     got = firedby.get((5 if added else 6, item, ag), [])
-                if sorted(want) != sorted(got):
-                    cbmiss.append(dict(node=node, key=k, old=v0.get(k), new=v1.get(k), registered=want, fired=got,
-                                       action=a, nev=ne))
+                hist_want = [x[0] for x in treg.get((node, k[0], item), [])]
+                if k[0] == "A":
+                    hist_want = hist_want + [x[0] for x in treg.get((node, "all", 0), [])]
+                left = list(got)
+                missing = [x for x in hist_want if not (x in left and (left.remove(x) or True))]
+                if sorted(want) != sorted(got) or missing:
+                    cbmiss.append(dict(node=node, key=k, old=v0.get(k), new=v1.get(k), registered=sorted(set(want + hist_want)),
+                                       fired=got, action=a, nev=ne))
+        if node is not None and node > 0:
+            # callbacks registered according to the history of operations (docstrings of subscribe_* / unsubscribe_*)
+            for e in events[ne:]:
+                if e[0] == "cb":
+                    l = treg.get((node, "ACR"[(e[3] - 1) // 2], e[4]), [])
+                    if [e[2], True] in l:
+                        l.remove([e[2], True])
+            if wire is not None and wire[0] == "op":
+                op = wire[1:]
+                kind = {"agent": "A", "comp": "C", "rep": "R"}.get(op[0].split("_")[-1])
+                if op[0] == "sub_all" and op[1] is not None:
+                    treg.setdefault((node, "all", 0), []).append([op[1], False])
+                elif op[0].startswith("sub_") and op[0] != "sub_all" and op[2] is not None:
+                    treg.setdefault((node, kind, op[1]), []).append([op[2], bool(op[3])])
+                elif op[0].startswith("unsub_") and raised != "ValueError":
+                    l = treg.get((node, kind, op[1]), [])
+                    l[:] = [x for x in l if op[2] is not None and x[0] != op[2]]
+                elif op[0] == "unreg_comp" and raised is None and ("C%d" % op[1]) in v0:
+                    treg.pop((node, "C", op[1]), None)
 
     # -- schedule: start everything, then interleave operations and deliveries
     for nm in names:
